@@ -43,16 +43,18 @@ def stamp(rid, n):
 class Judge:
     """Listener that applies the C04 and/or C12 oracles after every event."""
 
-    def __init__(self, w, buf, cfg, do04, do12):
+    def __init__(self, w, buf, cfg, do04, do12, stamps=True, register=True):
         self.w, self.buf, self.cfg = w, buf, cfg
         self.do04, self.do12 = do04, do12
+        self.stamps = stamps  # False when the regions belong to a foreign client (repository suite under monitors)
         self.sh = Shadow(buf.capacity)
         self.regions = {}  # rid -> (off, size)
         self.next_rid = 1
         self.hist = []
         self.bad = False
         self.last_new = None
-        bufmon.listeners.append(self)
+        if register:
+            bufmon.listeners.append(self)
 
     def close(self):
         if self in bufmon.listeners:
@@ -127,11 +129,12 @@ class Judge:
                 self.next_rid += 1
                 self.regions[rid] = (off, size)
                 self.last_new = rid
-                data = stamp(rid, size)
-                if rid % 3 == 0:
-                    buf.update_from_buffer(off, data)
-                else:
-                    bufmon.poke(buf, off, data)
+                if self.stamps:
+                    data = stamp(rid, size)
+                    if rid % 3 == 0:
+                        buf.update_from_buffer(off, data)
+                    else:
+                        bufmon.poke(buf, off, data)
             else:
                 self.last_new = None
         elif op == "free":
@@ -161,7 +164,7 @@ class Judge:
         # ---------------- after every event
         if self.bad:
             return
-        if self.do04:
+        if self.do04 and self.stamps:
             raw = bufmon.raw_bytes(buf)
             if len(raw) != buf.capacity:
                 self.viol("storage-size-differs-from-capacity", f"len(storage)={len(raw)} capacity={buf.capacity}")
@@ -309,3 +312,37 @@ def enum_histories(w, idx, depth, do04, do12):
     w.case(dict(enum=cfg), sample=None)
     for name, det in bufmon.take_contract_failures():
         w.violation("contract:" + name, str(det), dict(cfg=cfg))
+
+
+# ---- the repository's own test-suite as a workload (under the same monitors) ---------------------
+def suite_under_monitors(w, prefix="suite:"):
+    """Runs <repo>/tests in a sub-process with the xv.pytest_monitors plug-in (scratch cwd = this worker's cwd):
+    C04/C12 judges on every buffer the tests create and the C13 contracts on every primitive call.
+    Counters are merged with `prefix`; violations are recorded with the test id."""
+    import json
+    import os
+    import subprocess
+    import sys
+    from xv import REPO, VERIF_DIR, DEPS, GUARD
+
+    out = os.path.abspath("suite_monitors.json")
+    env = dict(os.environ, XV_SUITE_OUT=out, PYTHONPATH=os.pathsep.join([REPO, VERIF_DIR, DEPS]), XV_NO_REACH="1")
+    env[GUARD] = "1"
+    try:
+        r = subprocess.run([sys.executable, "-m", "pytest", "-q", "-p", "no:cacheprovider", "-p", "xv.pytest_monitors",
+                            "--timeout=900", os.path.join(REPO, "tests")], env=env, capture_output=True, text=True, timeout=1500)
+    except subprocess.TimeoutExpired:
+        w.count(prefix + "watchdog")
+        return
+    tail = (r.stdout.strip().splitlines() or [""])[-1]
+    w.notes["suite_tail"] = tail
+    if not os.path.exists(out):
+        w.count(prefix + "no_result")
+        return
+    with open(out) as f:
+        d = json.load(f)
+    for k, v in d["counters"].items():
+        w.count(prefix + k, v)
+    w.count(prefix + "runs")
+    for v in d["violations"]:
+        w.violation(v["mech"], v["msg"], dict(test=v["case_seed"]))
